@@ -86,13 +86,16 @@ claim("C10",
       "DESIGN.md 9.4 C10, 9.9")
 claim("C11",
       "Bounded model checking of the real expression evaluator kernels (eval_binary_op / eval_unary_op): for p = a OP b with OP in {=,<>,<,<=,>,>=,AND,OR,XOR} and operands over 11 kind "
-      "pairs of Null/Bool/Int64/Float64/Timestamp (all payload bits, NaN and mismatched kinds included), exactly one of p, NOT p, p IS NULL is true.",
-      "Three-valued partition kernel only; strings, IN, limits/skip, DISTINCT, COUNT and UNION operators and the identities at query-language level are outside.",
+      "pairs of Null/Bool/Int64/Float64/Timestamp (all payload bits, NaN and mismatched kinds included), exactly one of p, NOT p, p IS NULL is true; and of the real aggregate state "
+      "machine (AggregateState via a cfg(kani) handle): count(*) equals the number of rows fed, count(x), min, max, first, last equal their definitions for two Int64 values (all i64).",
+      "Three-valued partition and aggregate-state kernels only; strings, IN, limit/skip, DISTINCT and UNION operators, the aggregate operators around the state machine, sum/avg values "
+      "(optional thorough harnesses) and the identities at query-language level are outside.",
       "DESIGN.md 9.4 C11")
 claim("C12",
       "Bounded model checking of the real arithmetic evaluator kernels: + - * / % and unary minus return (Some or None) without panicking for EVERY pair of i64, every f64 bit "
-      "pattern, and mismatched operand kinds (dev-profile semantics: overflow checks on), including i64::MIN / -1, x / 0, i64::MIN % -1 and -i64::MIN.",
-      "Expression-arithmetic kernel only. Lexers, parsers, translators, binder, planner and the rest of execution are outside: the design-phase probes of the GQL lexer had no verdict "
+      "pattern, and mismatched operand kinds (dev-profile semantics: overflow checks on), including i64::MIN / -1, x / 0, i64::MIN % -1 and -i64::MIN; and the integer SUM aggregate "
+      "(AggregateState via a cfg(kani) handle) never panics when fed i64::MAX or i64::MIN followed by any i64.",
+      "Expression-arithmetic and SUM-aggregate kernels only. Lexers, parsers, translators, binder, planner and the rest of execution are outside: the design-phase probes of the GQL lexer had no verdict "
       "(DESIGN.md section 8 R4); the known lexer defect (byte-wise advance over multi-byte characters) is described in section 7 #7 but not decided by a solver check.",
       "DESIGN.md 9.4 C12")
 claim("C13",
